@@ -14,6 +14,9 @@ import (
 	"time"
 )
 
+// solverSem bounds the number of concurrently running solver jobs in the whole process.
+var solverSem = make(chan struct{}, 14)
+
 type SolverCfg struct {
 	fastTimeoutMs int
 	slowTimeoutS  int
@@ -179,40 +182,63 @@ func (e *Engine) discharge(cfg SolverCfg) {
 	if len(todo) == 0 {
 		return
 	}
-	// fast pass: one incremental z3-new process
-	var sb strings.Builder
-	sb.WriteString(fmt.Sprintf("(set-option :timeout %d)\n", cfg.fastTimeoutMs))
+	// fast pass: incremental z3-new processes over chunks of obligations (in parallel)
+	var pre strings.Builder
+	pre.WriteString(fmt.Sprintf("(set-option :timeout %d)\n", cfg.fastTimeoutMs))
 	if cfg.seed != 0 {
-		sb.WriteString(fmt.Sprintf("(set-option :smt.random_seed %d)\n(set-option :sat.random_seed %d)\n", cfg.seed%1000, cfg.seed%1000))
+		pre.WriteString(fmt.Sprintf("(set-option :smt.random_seed %d)\n(set-option :sat.random_seed %d)\n", cfg.seed%1000, cfg.seed%1000))
 	}
 	for _, d := range e.decls {
-		sb.WriteString(d + "\n")
+		pre.WriteString(d + "\n")
 	}
-	sb.WriteString(e.axiomText())
-	for _, o := range todo {
-		body, _ := oblBody(o, false)
-		sb.WriteString("(push)\n(assert " + body + ")\n(check-sat)\n(pop)\n")
-	}
-	t0 := time.Now()
-	ctx, cancel := context.WithTimeout(context.Background(), time.Duration(len(todo))*time.Duration(cfg.fastTimeoutMs+500)*time.Millisecond+10*time.Second)
-	out, _ := runSolver(ctx, "z3-new", []string{"-in"}, sb.String())
-	cancel()
-	dt := time.Since(t0).Seconds()
-	var results []string
-	for _, l := range strings.Split(out, "\n") {
-		l = strings.TrimSpace(l)
-		if l == "sat" || l == "unsat" || l == "unknown" || strings.HasPrefix(l, "(error") {
-			results = append(results, l)
+	pre.WriteString(e.axiomText())
+	const chunk = 8
+	results := make([]string, len(todo))
+	secs := make([]float64, len(todo))
+	var cwg sync.WaitGroup
+	for lo := 0; lo < len(todo); lo += chunk {
+		hi := lo + chunk
+		if hi > len(todo) {
+			hi = len(todo)
 		}
+		cwg.Add(1)
+		solverSem <- struct{}{}
+		go func(lo, hi int) {
+			defer cwg.Done()
+			defer func() { <-solverSem }()
+			var sb strings.Builder
+			sb.WriteString(pre.String())
+			for _, o := range todo[lo:hi] {
+				body, _ := oblBody(o, false)
+				sb.WriteString("(push)\n(assert " + body + ")\n(check-sat)\n(pop)\n")
+			}
+			t0 := time.Now()
+			ctx, cancel := context.WithTimeout(context.Background(), time.Duration(hi-lo)*time.Duration(cfg.fastTimeoutMs+500)*time.Millisecond+10*time.Second)
+			out, _ := runSolver(ctx, "z3-new", []string{"-in"}, sb.String())
+			cancel()
+			dt := time.Since(t0).Seconds()
+			k := lo
+			for _, l := range strings.Split(out, "\n") {
+				l = strings.TrimSpace(l)
+				if l == "sat" || l == "unsat" || l == "unknown" || strings.HasPrefix(l, "(error") {
+					if k < hi {
+						results[k] = l
+						secs[k] = dt / float64(hi-lo)
+						k++
+					}
+				}
+			}
+		}(lo, hi)
 	}
+	cwg.Wait()
 	var slow []*Obl
 	for i, o := range todo {
-		r := "unknown"
-		if i < len(results) {
-			r = results[i]
+		r := results[i]
+		if r == "" {
+			r = "unknown"
 		}
 		if r == "unsat" {
-			o.Status, o.Backend, o.Secs = "unsat", "z3-5.1.0(incremental)", dt/float64(len(todo))
+			o.Status, o.Backend, o.Secs = "unsat", "z3-5.1.0(incremental)", secs[i]
 		} else {
 			if strings.HasPrefix(r, "(error") {
 				o.Model = r
@@ -222,13 +248,12 @@ func (e *Engine) discharge(cfg SolverCfg) {
 	}
 	// slow pass: portfolio per obligation
 	var wg sync.WaitGroup
-	sem := make(chan struct{}, 4)
 	for _, o := range slow {
 		wg.Add(1)
-		sem <- struct{}{}
+		solverSem <- struct{}{}
 		go func(o *Obl) {
 			defer wg.Done()
-			defer func() { <-sem }()
+			defer func() { <-solverSem }()
 			e.portfolio(o, cfg)
 		}(o)
 	}
